@@ -150,6 +150,15 @@ let meta_pure which data =
 
 let meta_first data = res_md_s (first_success inflate data)
 
+(* ---------- quantisers (Flocq binary32) ---------- *)
+let rec pos_of_int n = if n = 1 then XH else if n land 1 = 0 then XO (pos_of_int (n lsr 1)) else XI (pos_of_int (n lsr 1))
+let z_of_int (i : int) : z = if i = 0 then Z0 else if i > 0 then Zpos (pos_of_int i) else Zneg (pos_of_int (-i))
+let rec pos_to_int = function XH -> 1 | XO p -> 2 * pos_to_int p | XI p -> 2 * pos_to_int p + 1
+let int_of_z = function Z0 -> 0 | Zpos p -> pos_to_int p | Zneg p -> - (pos_to_int p)
+let quant w bits =
+  let v = c32 (z_of_int bits) in
+  string_of_int (int_of_z (match w with "8" -> quant8 v | "9" -> quant9 v | _ -> quant16 v))
+
 (* ---------- dispatch ---------- *)
 let handle (line : string) : string =
   match String.split_on_char ' ' line with
@@ -157,6 +166,7 @@ let handle (line : string) : string =
   | ["icc_header"; d] -> icc_header (bytes_of_hex d)
   | ["icc_tags"; d] -> icc_tags (bytes_of_hex d)
   | ["icc_desc"; d] -> icc_desc (bytes_of_hex d)
+  | ["quant"; w; bits] -> quant w (int_of_string bits)
   | ["meta_load"; which; d; sched; eofwd; fa; inf] -> load_inflate_table inf; meta_load which (bytes_of_hex d) sched eofwd fa
   | ["meta_pure"; which; d; inf] -> load_inflate_table inf; meta_pure which (bytes_of_hex d)
   | ["meta_first"; d; inf] -> load_inflate_table inf; meta_first (bytes_of_hex d)
